@@ -177,7 +177,7 @@ fn install_under_changing_cs(r: &mut Rep) {
     use crate::simcpu::{cpu, run_stepped};
     crate::simcpu::init();
     let mut t = InterruptDescriptorTable::new();
-    for (step, (cs, lo, hi)) in [(0x28u16, 0u8, 31u8), (0x08, 32, 47), (0x08, 0, 31), (0x33, 100, 103), (0x10, 14, 14)].into_iter().enumerate() {
+    for (step, (cs, lo, hi)) in [(0x28u16, 0u8, 31u8), (0x08, 32, 47), (0x08, 0, 31), (0x33, 100, 103), (0x10, 14, 14), (0x0c, 48, 50), (0x27, 8, 8), (0xffff, 254, 255), (0x04, 13, 13), (0x08, 48, 50)].into_iter().enumerate() {
         cpu().sel[1] = cs;
         cpu().clear_events();
         let res = run_stepped(|| do_install(&mut t, lo, hi, 0));
